@@ -1499,6 +1499,21 @@ func (t *fnTrans) locate(li *loopInfo, ins ssa.Instruction, heaps map[string]boo
 					done = true
 				}
 			case *ast.SelectorExpr:
+				if pid, ok := n.X.(*ast.Ident); ok && argOf(pid.Name) == nil {
+					// pkg.Var: a global cell is a fixed root
+					for _, tp := range t.eng.typePkgs {
+						if tp.Name() == pid.Name {
+							if o, isVar := tp.Scope().Lookup(n.Sel.Name).(*types.Var); isVar && !isStruct(o.Type()) {
+								pends = append(pends, pend{hs, t.eng.globalRefObj(o), false})
+								done = true
+							}
+							break
+						}
+					}
+				}
+				if done {
+					break
+				}
 				if pid, ok := n.X.(*ast.Ident); ok {
 					if av := argOf(pid.Name); av != nil {
 						if r, ok := t.objRefTerm(li, av); ok {
